@@ -2,6 +2,7 @@ package checks
 
 import (
 	"fmt"
+	"strings"
 
 	"github.com/formancehq/numscript/zzverif/vm"
 )
@@ -116,6 +117,16 @@ func init() {
 				for _, s := range second {
 					cases = append(cases, apiCase("C01", "two-statements", []string{f, s}, nil))
 				}
+			}
+			// a statement touching an account (or asset) the store knows nothing about, between two debits
+			omitP := map[string][2]string{"_omit": {"", "p"}}
+			for _, mid := range []string{"save %N from @p", "save [USD *] from @p", sendAll("USD", "@p", "@d"), sendFixed("USD", "{ @p @world }", "@d"), "send [EUR *] (\n  source = @a\n  destination = @d\n)"} {
+				ex := omitP
+				if strings.Contains(mid, "EUR") {
+					ex = map[string][2]string{"_omitasset": {"", "a/EUR"}}
+				}
+				cases = append(cases, apiCase("C01", "unknown-account-between-debits", []string{sendFixed("USD", "@a", "@b"), mid, sendFixed("USD", "{ @a @world }", "@e")}, ex))
+				cases = append(cases, apiCase("C01", "unknown-account-between-debits", []string{sendAll("USD", "@a", "@b"), mid, sendAll("USD", "@a allowing overdraft up to %K", "@e")}, ex))
 			}
 			// account reached through variables (aliasing)
 			for _, alias := range []string{"a", "b"} {
@@ -236,11 +247,19 @@ func init() {
 			dsts := dstTrees(2, true, true, true)
 			if tier == "thorough" {
 				dsts = dstTrees(4, true, true, true)
+				dsts = append(dsts, "{ max %C to { max %C to @a remaining to @b } max %C to { 1/3 to @d remaining to @e } remaining to { 1/2 to @c 1/2 kept } }")
 				dsts = append(dsts, "{ max %C to { max %C to { max %C to @d remaining kept } remaining to @e } remaining to @a }",
 					"{ 1/3 to { 1/2 to @d 1/2 kept } 1/3 to { max %C kept remaining to @e } remaining to @a }")
 			}
+			dsts = append(dsts, "{ max %C to { max %C to @a remaining to @b } remaining to { 1/2 to @c 1/2 to @d } }", "{ max %C to @d max %C to @d remaining to @e }",
+				"{ 1/2 to { max %C to @a remaining to @b } 1/2 to { max %C to @b remaining to @a } }")
 			for _, d := range dsts {
 				cases = append(cases, apiCase("C05", "world-source", []string{sendFixed("USD", "@world", d)}, nil))
+			}
+			// the same cap variable on several clauses, kept included
+			for _, d := range []string{"{ max $cap kept max $cap to @d remaining to @e }", "{ max $cap to @d max $cap to @d max $cap kept remaining to @e }", "{ max $cap to { max $cap to @a remaining kept } remaining to @d }"} {
+				cases = append(cases, apiCase("C05", "shared-cap-variable", []string{sendFixed("USD", "{ @a @b }", d)}, map[string][2]string{"cap": {"monetary", "mon:USD"}}))
+				cases = append(cases, apiCase("C05", "shared-cap-variable", []string{sendFixed("USD", "@world", d)}, map[string][2]string{"cap": {"monetary", "mon:USD"}}))
 			}
 			for _, d := range thin(dsts, 12) {
 				cases = append(cases, apiCase("C05", "send-all-source", []string{sendAll("USD", "{ @a @b }", d)}, nil))
